@@ -292,12 +292,17 @@ func runEntry(prog *ssa.Program, epkg *ssa.Package, entry string, cfg Config, po
 		o *Obligation
 	}
 	var obls []*Obligation
+	trivial := map[string][]*Obligation{}
 	for _, o := range ex.obls {
 		if noPanics && o.Kind == "panic" {
 			continue
 		}
 		if o.Bad.IsFalse() {
-			continue // trivially discharged by simplification
+			// trivially discharged by simplification; remembered per label for the vacuity verdict
+			if o.Kind == "assert" && !o.Guard.IsFalse() {
+				trivial[o.Label] = append(trivial[o.Label], o)
+			}
+			continue
 		}
 		if o.Kind == "assert" && onlyPrefixes != "" {
 			keep := false
@@ -381,6 +386,40 @@ func runEntry(prog *ssa.Program, epkg *ssa.Package, entry string, cfg Config, po
 		}(i, o)
 	}
 	wg.Wait()
+	// a label whose solved instances are all vacuous may still have instances the simplifier
+	// discharged (assertion folded to true): one reachability query over their guards decides
+	// whether the assertion is reached at all
+	allVac := map[string]bool{}
+	for _, r := range res.Obligations {
+		if r.Kind != "assert" {
+			continue
+		}
+		if _, seen := allVac[r.Label]; !seen {
+			allVac[r.Label] = true
+		}
+		if r.Status != "vacuous" {
+			allVac[r.Label] = false
+		}
+	}
+	for label, vac := range allVac {
+		ts := trivial[label]
+		if os.Getenv("GOSMT_PROFILE") != "" {
+			fmt.Fprintf(os.Stderr, "VACCHECK %q allvac=%v trivial=%d\n", label, vac, len(ts))
+		}
+		if !vac || len(ts) == 0 {
+			continue
+		}
+		var gs []*Term
+		for _, o := range ts {
+			gs = append(gs, o.Guard)
+		}
+		last := ts[len(ts)-1]
+		script, _, _ := EmitQuery(append(append([]*Term(nil), last.Assumps...), Or(gs...)), ex.axioms)
+		r := pool.Query(script, nil, timeout)
+		if r.Status == "sat" {
+			res.Obligations = append(res.Obligations, OblResult{Label: label, Kind: "assert", Pos: last.Pos, Status: "unsat", Reach: "sat", Time: r.Time, Size: len(script)})
+		}
+	}
 	// reachability witnesses
 	for label, g := range ex.reachLabels {
 		script, _, _ := EmitQuery(append(append([]*Term(nil), ex.assumptions...), g), ex.axioms)
